@@ -49,6 +49,27 @@ CHECKS = {
         "Trusted: numpy float64 as reference arithmetic; classification table of ast.expr subclasses in mc/props/c19.py (constructs the statement leaves open are 'unspecified' and never flagged).",
         "5/C19",
     ),
+    "C11": (
+        "exploration",
+        "exhaustive grid enumeration on the real coverage functions with every ordered pair of grid points compared for monotonicity, against reference formulas",
+        "The full product grid of spending x unit cost x capacity constraint x saturation x eligible x program type x dt is evaluated through Program.get_capacity/get_prop_covered and ProgramSet.get_capacities/get_prop_coverage; bounds, caps, precedence of overwrites, stepped interpolation and dt-independence are checked at every point and monotonicity on every ordered pair.",
+        "Continuous-domain claim: only the grid is decided. Reference formulas written from Programs.rst (mc/refprog.py).",
+        "5/C11",
+    ),
+    "C12": (
+        "model_checking",
+        "exhaustive enumeration of coverage vectors x effectiveness orders x interactions; combination weights extracted from the real Covout.get_outcome by finite differences and compared with a reference weight model (every reference trace validated against the implementation)",
+        "For n <= 4/5 programs every permutation of effectiveness, every coverage vector of the grid and all three interactions are enumerated; the 2^n-1 combination weights are recovered from the real code and checked to be a sub-probability distribution with marginals equal to coverage and equal to the documented rule; outcome tables with ties, mixed signs and explicit interactions are checked for range, baseline, single-program line, monotonicity and agreement with the reference.",
+        "Grid of coverage values only. Reference weights in mc/refprog.py (from Programs.rst). Finite-difference extraction relies on linearity of the outcome in each combination outcome (holds by construction of the weighted average; a non-linear implementation would show as a mismatch).",
+        "5/C12",
+    ),
+    "C14": (
+        "exploration",
+        "exhaustive grid enumeration of proposals x totals x bounds on the real constrain_sum_bounded, and of proposal vectors through a real Optimization with TotalSpendConstraint / package adjustments",
+        "Every combination of the proposal, total and bound alphabets for n <= 3/4 programs (240k calls quick) is passed to the real function and the returned vector checked against total and bounds (or a signal required); the same for TotalSpendConstraint driven through Optimization.get_hard_constraints/constrain_instructions with plain, paired and package adjustments, and for SpendingPackageAdjustment proportions.",
+        "Continuous-domain claim: only the grid is decided. SLSQP inside scipy is part of the code under test, not trusted.",
+        "5/C14",
+    ),
 }
 
 PENDING_REASON = "check not built yet in this session (see DESIGN.md section 8 for the build order); no claim is made"
